@@ -27,7 +27,7 @@ git -C "$WT" apply "$D/patch.diff" || { say "PATCH DOES NOT APPLY"; exit 3; }
 demo "with change"; RC_MUT=$?
 say "building and running the repository test suite with the change ..."
 cmake --build "$WT/_build" >> "$LOG" 2>&1 || { say "LIBRARY DOES NOT BUILD WITH THE CHANGE"; exit 3; }
-( cd "$WT/_build" && OPENBLAS_NUM_THREADS=1 ctest --test-dir "$WT/_build" -j${CTEST_J:-8} --timeout 1800 > "$WT/ctest.out" 2>&1 )
+( cd "$WT/_build" && OPENBLAS_NUM_THREADS=1 ctest --test-dir "$WT/_build" -j${CTEST_J:-8} --timeout 3600 > "$WT/ctest.out" 2>&1 )
 SUM=$(grep -E "tests passed|tests failed" "$WT/ctest.out")
 if echo "$SUM" | grep -q "1 tests failed" && grep -q "testmatrix .*aborted" "$WT/ctest.out"; then
   # testmatrix Test53 draws time-seeded random integers and aborts on a zero (~4% of runs, also on the pinned tree): re-run it once
